@@ -47,6 +47,29 @@ int main(int argc, char** argv) {
       emitS("open", "OPENCHECK " + head + S(subj) + " " + S(in.clip) + " " + S(opn) + " " + S(sol_open));
       stat("open.solution.paths", (long long)sol_open.size());
       stat(std::string("ct.") + std::to_string((int)ct));
+      // the other ways of asking for the same thing must agree exactly with the run above:
+      //  (a) the Execute overload WITHOUT an open-solution argument (open subjects still loaded) returns the closed solution only;
+      //  (b) the same paths handed over through a ReuseableDataContainer64 - open subjects first, then clips, then closed subjects,
+      //      and in the opposite order - give the same closed and open solutions.
+      {
+        Clipper64 ca; ca.AddSubject(subj); ca.AddOpenSubject(opn); ca.AddClip(in.clip);
+        Paths64 only; bool oka = ca.Execute(ct, fr, only);
+        stat("overload.closed_only_with_open_subjects");
+        if (!oka) emitF("execute-returned-false", "closed-only overload, open subjects loaded, ct=" + std::to_string((int)ct));
+        if (!use_tree && canon_closed(only) != canon_closed(sol))
+          emitF("closed-only-overload", "Execute(ct, fr, closed) with open subjects loaded differs from the closed part of Execute(ct, fr, closed, open): ct=" + std::to_string((int)ct) + " fr=" + std::to_string((int)fr) + " subj=" + S(subj) + " clip=" + S(in.clip) + " open=" + S(opn) + " got=" + S(only) + " want=" + S(sol));
+        for (int order = 0; order < 2; ++order) {
+          ReuseableDataContainer64 rd;
+          if (order == 0) { rd.AddPaths(opn, PathType::Subject, true); rd.AddPaths(in.clip, PathType::Clip, false); rd.AddPaths(subj, PathType::Subject, false); }
+          else { rd.AddPaths(subj, PathType::Subject, false); rd.AddPaths(in.clip, PathType::Clip, false); rd.AddPaths(opn, PathType::Subject, true); }
+          Clipper64 cr; cr.AddReuseableData(rd);
+          Paths64 rs, ro; bool okr = cr.Execute(ct, fr, rs, ro);
+          stat("reuseable.with_open_subjects");
+          if (!okr) emitF("execute-returned-false", "AddReuseableData with open subjects (order " + std::to_string(order) + "), ct=" + std::to_string((int)ct) + " fr=" + std::to_string((int)fr) + " subj=" + S(subj) + " clip=" + S(in.clip) + " open=" + S(opn));
+          else if (!use_tree && (canon_closed(rs) != canon_closed(sol) || ro != sol_open))
+            emitF("reuseable-data-differs", "paths through ReuseableDataContainer64 (order " + std::to_string(order) + ") give another solution: ct=" + std::to_string((int)ct) + " fr=" + std::to_string((int)fr) + " subj=" + S(subj) + " clip=" + S(in.clip) + " open=" + S(opn) + " open solution " + S(ro) + " vs " + S(sol_open));
+        }
+      }
       // closed solution must be the same region as without the open subjects
       Clipper64 c2; c2.AddSubject(subj); c2.AddClip(in.clip);
       Paths64 sol2; c2.Execute(ct, fr, sol2);
